@@ -13,6 +13,7 @@ CONSTANTS
   MCScopes <- ScopesTwo
   MCRoutes <- RoutesOne
   MCExits <- ExitsNo
+  MCIos <- IoBoth
   Emitting = FALSE
 INVARIANT PContained
 INVARIANT PZeroIff
